@@ -32,7 +32,7 @@ HINTS = {
 }
 
 
-def base(r, ver, syn_ack, mss, ws, ts1, ts2, ident, payload, seq):
+def base(r, ver, syn_ack, mss, ws, ts1, ts2, ident, payload, seq, ack=None, trailer=b""):
     opts = b""
     if mss is not None:
         opts += b"\x02\x04" + struct.pack("!H", mss)
@@ -44,10 +44,11 @@ def base(r, ver, syn_ack, mss, ws, ts1, ts2, ident, payload, seq):
         opts = b"\x01" + opts + b"\x04\x02"
     opts += b"\x01" * (-len(opts) % 4)
     flags = (0x12 if syn_ack else 0x02) | r.choice([0, 0, 0x08, 0x40, 0xc0])
-    tcp = wiregen.tcp_header(r, flags=flags, opts=opts, payload=payload, seq=seq, ack=r.randrange(1, 2**32) if syn_ack else 0, urp=0, win=r.choice([0, 1, 8192, 65535, 31337]), res=0)
+    tcp = wiregen.tcp_header(r, flags=flags, opts=opts, payload=payload, seq=seq, ack=(r.randrange(1, 2**32) if syn_ack else 0) if ack is None else ack, urp=0,
+                             win=r.choice([0, 1, 8192, 65535, 31337]), res=0)
     if ver == "4":
-        return wiregen.ipv4(r, tcp, ipopts=b"", tos=r.choice([0, 1, 0xb8]), ident=ident, fl=r.choice([0, 2, 4, 6]), ttl=64)
-    return wiregen.ipv6(r, tcp, tc=r.choice([0, 3]), fl=r.choice([0, 9]), hlim=64)
+        return wiregen.ipv4(r, tcp, ipopts=b"", tos=r.choice([0, 1, 0xb8]), ident=ident, fl=r.choice([0, 2, 4, 6]), ttl=64, trailer=trailer)
+    return wiregen.ipv6(r, tcp, tc=r.choice([0, 3]), fl=r.choice([0, 9]), hlim=64, trailer=trailer)
 
 
 def make_cases(ctx, n):
@@ -83,10 +84,19 @@ def make_cases(ctx, n):
         if ("ts1-" in qs or "ts2+" in qs) and "ts" not in lay:
             continue
         kind = r.choice("dddec")
+        # C14 speaks about ALL base packets: every eighth base has an ACK number that does not go with its ACK flag (a SYN
+        # carrying one, a SYN+ACK without). C05's "must match exactly" does not apply to those (free=True); identity, hints
+        # and the explanation by the model do.
+        free = r.random() < 0.125
+        ack = None
+        if free:
+            ack = 0 if syn_ack else r.choice([1, 5, 2**32 - 1])
+        # frame padding / FCS beyond the IP datagram (only for packets dissected from bytes): it is not TCP payload
+        trailer = r.choice([b"", b"", b"", b"\x00" * 6, b"\x00\x00\xde\xad\xbe\xef"]) if kind in "de" else b""
         b = base(r, ver, syn_ack, r.choice(HINTS["mss"]), r.choice(HINTS["ws"]), r.choice(HINTS["ts1"]), r.choice(HINTS["ts2"]),
-                 1 if kind == "c" else r.choice([0, 0, 1, 4242, 65535]), r.choice([b"", b"", b"data"]), r.choice([0, 1, 77, 2**32 - 1]))
+                 1 if kind == "c" else r.choice([0, 0, 1, 4242, 65535]), r.choice([b"", b"", b"data"]), r.choice([0, 1, 77, 2**32 - 1]), ack=ack, trailer=trailer)
         cases.append(dict(sig=sig, ver=ver, base=b.hex(), kind=kind, hops=r.choice([0, 0, 1, 34]), uptime=r.choice(["-", "-", "-", "0", "77", "4294967296"]),
-                          seed=r.randrange(2**31), origin="crossed", syn_ack=syn_ack))
+                          seed=r.randrange(2**31), origin="crossed", syn_ack=syn_ack, free=free))
     return cases
 
 
